@@ -297,4 +297,142 @@ theorem last_processEvent (env : Env) (input : Str) (ev : Ev α) (s : Col α) (h
         have h2 := hfr _ (pushItem_fr (Item.timer (timerA env lt s).1)) (timerA env lt s).2
         exact .of_same ⟨h2.1.trans h1.1, h2.2.trans h1.2⟩
 
+/-! ### the invariant: a reference skips no candidate -/
+
+/-- between the target of a regular ingredient reference and the referrer there is no non-REF
+    ingredient of the referrer's name -/
+def LastI (env : Env) (ings : Array (Ingredient (ScalableValue α))) : Prop :=
+  ∀ (k : Nat) (ig : Ingredient (ScalableValue α)), ings[k]? = some ig →
+    ∀ t, ig.relation = ⟨.reference t, some .ingredient⟩ →
+      ∀ (j : Nat) (x : Ingredient (ScalableValue α)), t < j → j < k → ings[j]? = some x →
+        ¬ (x.modifiers.contains Modifiers.REF = false ∧ nameEq env ig.name x.name = true)
+
+def LastC (env : Env) (cws : Array (Cookware (ScalableValue α))) : Prop :=
+  ∀ (k : Nat) (cw : Cookware (ScalableValue α)), cws[k]? = some cw →
+    ∀ t, cw.relation = .reference t →
+      ∀ (j : Nat) (x : Cookware (ScalableValue α)), t < j → j < k → cws[j]? = some x →
+        ¬ (x.modifiers.contains Modifiers.REF = false ∧ nameEq env cw.name x.name = true)
+
+/-- an entry of the table after the back-link update is the old entry up to its relation, and is the
+    old entry itself when it is a reference -/
+theorem IngrStep.old_entry {env : Env} {s : Col α} {ings : Array (Ingredient (ScalableValue α))}
+    {igr : Ingredient (ScalableValue α)} (hstep : IngrStep env s ings igr) (j : Nat)
+    (x : Ingredient (ScalableValue α)) (hx : ings[j]? = some x) :
+    ∃ x0, s.ingredients[j]? = some x0 ∧ x0.name = x.name ∧ x0.modifiers = x.modifiers ∧
+      (∀ t tg, x.relation = ⟨.reference t, tg⟩ → x0 = x) := by
+  rcases hstep with ⟨he, _⟩ | ⟨he, _⟩ | ⟨t, defn, rf, b, h1, h2, h3, h4, h5, h6, he⟩
+  · rw [he] at hx; exact ⟨x, hx, rfl, rfl, fun _ _ _ => rfl⟩
+  · rw [he] at hx; exact ⟨x, hx, rfl, rfl, fun _ _ _ => rfl⟩
+  · rw [he, Array.getElem?_setIfInBounds] at hx
+    split at hx
+    · rename_i hjt
+      split at hx
+      · cases hx
+        exact ⟨defn, by rw [← hjt]; exact h1, rfl, rfl, fun t' tg hr => by cases hr⟩
+      · cases hx
+    · exact ⟨x, hx, rfl, rfl, fun _ _ _ => rfl⟩
+
+theorem CwStep.old_entry {env : Env} {s : Col α} {cws : Array (Cookware (ScalableValue α))}
+    {cw : Cookware (ScalableValue α)} (hstep : CwStep env s cws cw) (j : Nat)
+    (x : Cookware (ScalableValue α)) (hx : cws[j]? = some x) :
+    ∃ x0, s.cookware[j]? = some x0 ∧ x0.name = x.name ∧ x0.modifiers = x.modifiers ∧
+      (∀ t, x.relation = .reference t → x0 = x) := by
+  rcases hstep with ⟨he, _⟩ | ⟨t, defn, rf, b, h1, h2, h3, h4, h5, h6, he⟩
+  · rw [he] at hx; exact ⟨x, hx, rfl, rfl, fun _ _ => rfl⟩
+  · rw [he, Array.getElem?_setIfInBounds] at hx
+    split at hx
+    · rename_i hjt
+      split at hx
+      · cases hx
+        exact ⟨defn, by rw [← hjt]; exact h1, rfl, rfl, fun t' hr => by cases hr⟩
+      · cases hx
+    · exact ⟨x, hx, rfl, rfl, fun _ _ => rfl⟩
+
+theorem last_keys_get (ings : Array (Ingredient (ScalableValue α))) (j : Nat) (x : Ingredient (ScalableValue α))
+    (h : ings[j]? = some x) : (ingrKeys ings)[j]? = some (x.name, x.modifiers) := by
+  simp [ingrKeys, h]
+
+theorem last_cwKeys_get (cws : Array (Cookware (ScalableValue α))) (j : Nat) (x : Cookware (ScalableValue α))
+    (h : cws[j]? = some x) : (cwKeys cws)[j]? = some (x.name, x.modifiers) := by
+  simp [cwKeys, h]
+
+theorem TabStep.lastI {env : Env} {s s' : Col α} (h : TabStep env s s') (hl : LastI env s.ingredients) :
+    LastI env s'.ingredients := by
+  rcases h.ingr with he | ⟨ings, igr, he, hsz, hstep, htarget⟩
+  · rw [he]; exact hl
+  · rw [he]
+    intro k ig hk t hrel j x htj hjk hx
+    have hjlt : j < ings.size := by
+      have := lt_size_of_getElem? hk
+      simp only [Array.size_push] at this
+      omega
+    rw [Array.getElem?_push, if_neg (by omega)] at hx
+    obtain ⟨x0, hx0, hn, hm, _⟩ := hstep.old_entry j x hx
+    rw [Array.getElem?_push] at hk
+    split at hk
+    · -- the new entry
+      cases hk
+      have hsn := htarget t hrel
+      have := sameNameIdx_last env _ _ t hsn j x0.name x0.modifiers htj (last_keys_get _ j x0 hx0)
+      rw [hn, hm] at this
+      exact this
+    · -- an old entry that is a reference: unchanged
+      obtain ⟨ig0, hig0, _, _, hsame⟩ := hstep.old_entry k ig hk
+      have := hsame t _ hrel
+      subst this
+      have := hl k ig0 hig0 t hrel j x0 htj hjk hx0
+      rw [hn, hm] at this
+      exact this
+
+theorem TabStep.lastC {env : Env} {s s' : Col α} (h : TabStep env s s') (hl : LastC env s.cookware) :
+    LastC env s'.cookware := by
+  rcases h.cw with he | ⟨cws, cw, he, hsz, hstep, htarget⟩
+  · rw [he]; exact hl
+  · rw [he]
+    intro k c hk t hrel j x htj hjk hx
+    have hjlt : j < cws.size := by
+      have := lt_size_of_getElem? hk
+      simp only [Array.size_push] at this
+      omega
+    rw [Array.getElem?_push, if_neg (by omega)] at hx
+    obtain ⟨x0, hx0, hn, hm, _⟩ := hstep.old_entry j x hx
+    rw [Array.getElem?_push] at hk
+    split at hk
+    · cases hk
+      have hsn := htarget t hrel
+      have := sameNameIdx_last env _ _ t hsn j x0.name x0.modifiers htj (last_cwKeys_get _ j x0 hx0)
+      rw [hn, hm] at this
+      exact this
+    · obtain ⟨c0, hc0, _, _, hsame⟩ := hstep.old_entry k c hk
+      have := hsame t hrel
+      subst this
+      have := hl k c0 hc0 t hrel j x0 htj hjk hx0
+      rw [hn, hm] at this
+      exact this
+
+theorem parseEventsLoop_last (env : Env) (input : Str) (evs : List (Ev α)) (s c : Col α) (hi : Inv env s)
+    (hl : LastI env s.ingredients ∧ LastC env s.cookware) (hev : ∀ ev ∈ evs, EvOK ev)
+    (hc : (parseEventsLoop env input evs s).output = some c) :
+    LastI env c.ingredients ∧ LastC env c.cookware := by
+  induction evs generalizing s with
+  | nil =>
+    simp only [parseEventsLoop, Option.some.injEq] at hc
+    subst hc
+    refine ⟨?_, ?_⟩
+    · split <;> split <;> exact hl.1
+    · split <;> split <;> exact hl.2
+  | cons ev rest ih =>
+    by_cases he : ∃ d0, ev = .error d0
+    · obtain ⟨d0, rfl⟩ := he
+      simp only [parseEventsLoop] at hc
+      cases hc
+    · rw [parseEventsLoop_cons_nonerror env input ev rest s he] at hc
+      have hst := last_processEvent env input ev s hi (hev ev List.mem_cons_self)
+      exact ih _ (processEvent_inv env input ev s hi (hev ev List.mem_cons_self))
+        ⟨hst.lastI hl.1, hst.lastC hl.2⟩
+        (fun e he' => hev e (List.mem_cons_of_mem _ he')) hc
+
+theorem LastI.empty (env : Env) : LastI (α := α) env #[] := fun k ig h => by simp at h
+theorem LastC.empty (env : Env) : LastC (α := α) env #[] := fun k ig h => by simp at h
+
 end Cook
